@@ -171,6 +171,11 @@ def programs(draw, feats=ALL_FEATS, min_nodes=2, max_nodes=8, clean=True, modes=
         b.nodes.append(node)
         b.idx[nid] = node
     prog = b.prog()
+    _decorate(draw, prog, feats)
+    return prog
+
+
+def _decorate(draw, prog, feats):
     # node attributes
     for n in prog['nodes']:
         if 'retry' in feats and draw(st.integers(0, 3)) == 0:
@@ -188,6 +193,77 @@ def programs(draw, feats=ALL_FEATS, min_nodes=2, max_nodes=8, clean=True, modes=
             n['named'] = False
         if n['mode'] == 'thread' and draw(st.booleans()):
             n['thread_tag'] = True
+
+
+@st.composite
+def nested_programs(draw, feats=ALL_FEATS, max_depth=3, max_nodes=12, modes=S.MODES):
+    """expression-tree shaped programs: lazy constructs nested inside each other (a switch inside a one-of candidate
+    inside a switch case ...), with sharing of sub-expressions. Complements the DAG-shaped `programs`."""
+    feats = set(feats)
+    mode_w = {'gated': 4, 'thread': 2, 'process': 1, 'coro': 1, 'inline': 1}
+    mode_st = st.sampled_from([m for m in modes for _ in range(mode_w.get(m, 1))])
+    nodes = [{'id': 'n0', 'params': [], 'mode': draw(mode_st)}]
+    cands = set()
+
+    def new_node(params):
+        nid = f'n{len(nodes)}'
+        nodes.append({'id': nid, 'params': params, 'mode': draw(mode_st)})
+        return nid
+
+    def distinct(ids):
+        out = []
+        for x in ids:
+            if x not in out:
+                out.append(x)
+        return out
+
+    def expr(depth, exclusive=False):
+        kinds = [('leaf', 2)]
+        if depth > 0 and len(nodes) < max_nodes:
+            kinds.append(('plain', 3))
+            if 'switch' in feats:
+                kinds.append(('sw', 3))
+            if 'oneof' in feats:
+                kinds.append(('oneof', 3))
+        kind = _weighted(draw, kinds)
+        if kind == 'leaf':
+            share = [n['id'] for n in nodes if n['id'] not in cands]
+            if not exclusive and len(share) > 1 and draw(st.booleans()):
+                return draw(st.sampled_from(share))
+            return new_node([['k0', ['in', 'n0']]] if draw(st.booleans()) else [])
+        if kind == 'plain':
+            kids = distinct([expr(depth - 1) for _ in range(draw(st.integers(1, 2)))])
+            return new_node([[f'k{i}', ['in', c]] for i, c in enumerate(kids)])
+        if kind == 'sw':
+            sw = expr(depth - 1)
+            cs = distinct([expr(depth - 1) for _ in range(draw(st.integers(1, 3)))])
+            cs = [c for c in cs if c != sw]
+            if not cs:
+                return new_node([['k0', ['in', sw]]])
+            params = [['k0', ['sw', f'sw_n{len(nodes)}', sw, [[f'L{i}', c] for i, c in enumerate(cs)]]]]
+            if draw(st.integers(0, 2)) == 0:
+                extra = expr(0)
+                if extra != sw and extra not in cs:
+                    params.append(['k1', ['in', extra]])
+            return new_node(params)
+        # oneof
+        cs = distinct([expr(depth - 1, exclusive=True) for _ in range(draw(st.integers(1, 3)))])
+        cs = [c for c in cs if c != 'n0' and c not in cands]
+        # a candidate must be consumed by its one-of only: wrap anything that is already used elsewhere
+        fixed = []
+        consumed = {s for n in nodes for _, m in n['params'] for s in S.mark_sources(m)}
+        for c in cs:
+            fixed.append(new_node([['k0', ['in', c]]]) if c in consumed else c)
+        if not fixed:
+            return new_node([['k0', ['in', 'n0']]])
+        cands.update(fixed)
+        return new_node([['k0', ['oneof', fixed]]])
+
+    root = expr(draw(st.integers(1, max_depth)))
+    if root == 'n0' or root in cands or root != nodes[-1]['id']:
+        root = new_node([['k0', ['in', root]]]) if root not in cands else new_node([['k0', ['oneof', [root]]]])
+    prog = {'nodes': nodes, 'output': root}
+    _decorate(draw, prog, feats)
     return prog
 
 
@@ -302,7 +378,10 @@ def schedules(draw, program=None, max_tape=48):
 @st.composite
 def cases(draw, feats=ALL_FEATS, clean=True, n_scheds=3, **kw):
     """a full engine case: program + variant + schedules"""
-    prog = draw(programs(feats=feats, clean=clean, **kw))
+    if draw(st.integers(0, 3)) == 0 and ({'switch', 'oneof'} & set(feats)):
+        prog = draw(nested_programs(feats=feats, max_nodes=max(6, kw.get('max_nodes', 8) + 2)))
+    else:
+        prog = draw(programs(feats=feats, clean=clean, **kw))
     var = draw(variants(prog, feats=feats))
     scheds = [draw(schedules(prog)) for _ in range(n_scheds)]
     return {'program': prog, 'variant': var, 'scheds': scheds}
